@@ -89,7 +89,7 @@ func init() {
 		TestPkg:    "x/watcher", TestName: "TestZSimC40", Porcupine: true,
 		QuickRuns: 20000, ThoroughRuns: 5000000, QuickBudget: 3 * time.Minute, ThoroughBudget: 40 * time.Minute,
 		MaxStepsQuick: 5000, MaxStepsThor: 20000, Chunk: 1250,
-		Rule: "each run draws a workload (1-3 producers reporting into 2-4 directories — FileChanged, EntryDeleted for files and directories, and in 40% of the runs DirAdded over one or two real directory trees below a real watched root — 1-3 fetchers, <=24 operations quick / <=40 thorough, then a wake-up phase and a sweep phase) and a scheduling strategy from its seed; the seeded scheduler decides every interleaving at each lock, unlock-wake, cond wait/broadcast and the map iteration order in Fetch. A run is non-trivial when its history has >=2 completed operations and >=2 context switches; distinct = distinct (event-log hash, workload hash) pairs among non-trivial runs",
+		Rule: "each run draws a workload (1-3 producers reporting into 2-4 directories — FileChanged, EntryDeleted for files and directories, and in 40% of the runs DirAdded over one or two real directory trees below a real watched root; 4% of the runs are bursts: 2-3 producers reporting 30-70 distinct directories each while 1-2 fetchers take 5-30 — 1-3 fetchers, <=24 operations quick / <=40 thorough, then a wake-up phase and a sweep phase) and a scheduling strategy from its seed; the seeded scheduler decides every interleaving at each lock, unlock-wake, cond wait/broadcast and the map iteration order in Fetch. A run is non-trivial when its history has >=2 completed operations and >=2 context switches; distinct = distinct (event-log hash, workload hash) pairs among non-trivial runs",
 		Real: []string{"x/watcher/changes.go (Changes.FileChanged, EntryDeleted, DirAdded, Ignore, Fetch, lookupMod/deleteMod) compiled from the working tree", "Go runtime, real goroutines released one at a time"},
 		Stubbed: []string{"sync.Mutex and sync.Cond (simulated inside the scheduler; Signal wakes a seeded choice of waiter, no spurious wake-ups)", "map iteration order in Fetch (seeded permutation of the key snapshot)", "the fsnotify event source and watch loop are not exercised (DirAdded, Ignore and the module lookup run for real over a scratch directory)"},
 		Assumptions: []string{"sync.Cond has no spurious wake-ups (documented)", "the standard library is that of go1.26.8", "porcupine v1.3.0 decides linearizability of the recorded history; Unknown (timeout) is counted as inconclusive"},
@@ -113,7 +113,7 @@ func init() {
 		TestPkg:    "x/jsonrpc2", TestName: "TestZSimC39",
 		QuickRuns: 16000, ThoroughRuns: 6000000, QuickBudget: 4 * time.Minute, ThoroughBudget: 60 * time.Minute,
 		MaxStepsQuick: 40000, MaxStepsThor: 60000, Chunk: 375,
-		Rule: "each run draws a transport (synchronous pipe like net.Pipe, or 64/4096-byte buffers), a fault plan (none in ~35% of runs; otherwise short reads, chunked writes, a disconnect in the middle of a write or first noticed by a read, a cut at a byte offset, a half-close, a stall healed in the settle phase), in ~20% of runs a scripted raw peer instead of the second connection (duplicate responses, responses with unknown or wrong-kind ids, error responses, no response, garbage frames, duplicate request ids, unsolicited responses), in ~25% of the other runs a second client dialling the same server, in ~20% the server behind NewIdleListener (timeout 1 ms / 50 ms / 60 s of simulated time, early-expiry rate 0-15% per step, 0-2 further clients that dial once the first has closed), in ~8% (30% behind the idle listener) one Accept that fails with an ordinary error, 1-4 caller tasks spread over the two endpoints issuing calls (echo, peek answered on the read loop, slow, async with a later Respond, re-entrant, failing, unknown), notifications, cancel notifications, cancelled Await contexts, second awaiters, Close and Wait, and a scheduling strategy. After the first quiescence faults stop, blocked handlers are released and both ends are closed. Non-trivial = at least one completed Await and 10 context switches; distinct = distinct (event-log hash, workload hash) pairs",
+		Rule: "each run draws a transport (synchronous pipe like net.Pipe, or 64/4096-byte buffers), a fault plan (none in ~35% of runs; otherwise short reads, chunked writes, a disconnect in the middle of a write or first noticed by a read, a cut at a byte offset, a half-close, a stall healed in the settle phase), in ~20% of runs a scripted raw peer instead of the second connection (duplicate responses, responses with unknown or wrong-kind ids, error responses, no response, garbage frames, duplicate request ids, unsolicited responses), in ~25% of the other runs a second client dialling the same server, in ~20% the server behind NewIdleListener (timeout 1 ms / 50 ms / 60 s of simulated time, early-expiry rate 0-15% per step, 0-2 further clients that dial once the first has closed), in ~8% (30% behind the idle listener) one Accept that fails with an ordinary error, in 2.5% a flood of 70-130 concurrent callers on each side whose calls are answered from the peers' read loops, 1-4 caller tasks spread over the two endpoints issuing calls (echo, peek answered on the read loop, slow, async with a later Respond, re-entrant, failing, unknown), notifications, cancel notifications, cancelled Await contexts, Call/Notify with their own cancelled or soon-cancelled contexts, second awaiters, Close and Wait, and a scheduling strategy. After the first quiescence faults stop, blocked handlers are released and both ends are closed. Non-trivial = at least one completed Await and 10 context switches; distinct = distinct (event-log hash, workload hash) pairs",
 		Real: []string{"x/jsonrpc2 conn.go, serve.go (Dial, NewServer/run/Shutdown/Wait, newConnection, NewIdleListener/idleListener), frame.go (HeaderFramer), messages.go, wire.go, jsonrpc2.go compiled from the working tree", "real channels/select (polling order decided by the simulator), context, encoding/json, bufio"},
 		Stubbed: []string{"sync.Mutex/WaitGroup/Once and sync/atomic (simulated / yield-wrapped)", "the byte transport (simnet pipe) and the listener", "application handlers, preempter and binder (harness)", "package time (stime: simulated clock; the idle listener's timer fires when nothing else can run or when the seeded scheduler lets the deadline pass first) and runtime.SetFinalizer (no-op inside a simulation)", "stdio and langserver are not exercised"},
 		Assumptions: []string{"the harness uses the API legally (Respond exactly once per asynchronous request, Preempt never blocks)", "the standard library is that of go1.26.8"},
@@ -137,7 +137,7 @@ func init() {
 		TestPkg: "tool", TestName: "TestZSimC36",
 		QuickRuns: 4000, ThoroughRuns: 400000, QuickBudget: 4 * time.Minute, ThoroughBudget: 40 * time.Minute,
 		Chunk: 250,
-		Rule: "each run draws a history of 4-29 (thorough: 4-60) operations on a module package directory — create, same-size rewrite, append, truncate, touch, rename, delete, mkdir, file in a sub-directory — over 10 compilable names (.go .xgo .gop .gox incl. dot-files, _test files, gop_autogen.go) and 10 irrelevant ones (underscore-prefixed, other extensions, backup suffixes), each stamped from a simulated clock that advances by 0, 1ns, sub-second, seconds, an hour or jumps backwards, truncated to a per-run mtime granularity (1ns, 1us, 1s, 2s); after every step PkgHash is recomputed and compared with the reference projection read back from the directory. Non-trivial = at least 3 judged steps of which at least 1 changed the projection; distinct = distinct (step/hash log, workload hash) pairs",
+		Rule: "each run draws a history of 4-29 (thorough: 4-60) operations on a module package directory — create, same-size rewrite, append, truncate, touch, rename, delete, mkdir, file in a sub-directory — over 10 compilable names (.go .xgo .gop .gox incl. dot-files, _test files, gop_autogen.go) and 10 irrelevant ones (underscore-prefixed, other extensions, backup suffixes), each stamped from a simulated clock that advances by 0, 1ns, sub-second, seconds, an hour or jumps backwards, truncated to a per-run mtime granularity (1ns, 1us, 1s, 2s); after every step PkgHash is recomputed and compared with the reference projection read back from the directory. 8% of the runs start with 16-65 further source files (half of them with ~100-byte names). Further step kinds: ONE file is deleted, hidden, created or touched WHILE PkgHash runs, at a seeded point of its scan (the hash must equal the quiescent hash before or after); the hash is asked for while the listing fails with EIO or the directory has been moved away (not judged itself, the following hashes are). Non-trivial = at least 3 judged steps of which at least 1 changed the projection; distinct = distinct (step/hash log, workload hash) pairs",
 		Real: []string{"tool/imp.go (NewImporter, Importer.PkgHash, dirHash, canCl) compiled from the working tree; it is sequential today, but it is instrumented and runs under the seeded scheduler so that goroutines, locks or map iteration added to it are decided by the simulator too", "goplus/mod module lookup, a real directory on tmpfs"},
 		Stubbed: []string{"the clock that stamps files (os.Chtimes from a simulated clock with granularity knob)", "the history of file-system operations (generated)"},
 		Assumptions: []string{"regular files only: no symlinks, devices, or names with control characters", "class-file extensions registered through go.mod are not exercised (the module registers none)", "only consecutive states are compared, as the statement says"},
@@ -176,7 +176,7 @@ func init() {
 			}
 			return nil
 		},
-		Rule: "each run takes a package — in 80% of runs a generated one (1-3 XGo files and 0-3 Go files holding 4-13 groups of mutually referring types, methods, functions, constants, variables and overload sets, plus 0-4 seeded errors: redeclarations across files, undefined names, type errors), otherwise one of the repository's class-file projects (cl/_testspx/*) — compiles it canonically (sorted listing, identity map orders, fresh importer and file set) and then 2-4 more times in the same process with a seeded permutation at every executed range-over-map site of the compile path (all sites, or a seeded quarter of them), a shuffled directory listing, and either a shared or a fresh importer/file set. Non-trivial = at least one non-identity permutation was actually consumed; distinct = distinct (listing/output log hash, workload hash) pairs",
+		Rule: "each run takes a package — in 80% of runs a generated one (1-3 XGo files and 0-3 Go files holding 4-13 groups of mutually referring types, methods, functions, constants, variables and overload sets, plus 0-4 seeded errors: redeclarations across files, undefined names, type errors), otherwise one of the repository's class-file projects (cl/_testspx/*, alone or two combined), a generated class project, a package mixing work classes of two or three frameworks without their project files, or a package declaring a function named like a builtin while another package compiled in between uses the builtin — compiles it canonically (sorted listing, identity map orders, fresh importer and file set) and then 2-4 more times in the same process with a seeded permutation at every executed range-over-map site of the compile path (all sites, or a seeded quarter of them), a shuffled directory listing, and either a shared or a second importer/file set; in 40% of the runs another generated package is compiled in between; in a quarter of the runs with a Go file every build of the run gets a brand-new file set next to the shared importer and another revision of the same package (a same-length change of a Go file's result type) is built before and in between. Non-trivial = at least one non-identity permutation was actually consumed; distinct = distinct (listing/output log hash, workload hash) pairs",
 		Real: []string{"parser.ParseFSDir, cl.NewPackage, gogen (Package.WriteTo) and everything below them, compiled from the working tree (gogen from the module cache copy) with range-over-map rewritten to go through detmap", "go/types, go/ast, go/printer"},
 		Stubbed: []string{"map iteration order at every rewritten range site (seeded permutation of a canonically ordered key snapshot)", "the directory listing (in-memory file system with seeded order)"},
 		Assumptions: []string{"range sites over maps whose keys have no address-free order (pointer keys) keep the runtime's order and are reported as uncontrolled", "packages whose files fail to PARSE are excluded (ParseFSDir documents that it returns the first error encountered)", "the standard library's own map iterations (go/types) are not controlled"},
@@ -189,7 +189,7 @@ func init() {
 		QuickRuns: 3000, ThoroughRuns: 300000, QuickBudget: 4 * time.Minute, ThoroughBudget: 40 * time.Minute,
 		Chunk: 190,
 		Post:  c26StraceFidelity,
-		Rule: "each run draws a module directory with 1-5 files (.xgo/.gop/.go/.gox; unformatted, already formatted or syntactically invalid; modes 0644/0600/0664/0640/0755/0444; optionally in a sub-directory; ~12% symbolic links to sources outside the tree, a relative link next to a same-named file, and in a quarter of the runs neighbours whose names extend a source's name: further sources f.gox/f.gop and bystanders f.go~/f.go.orig that must survive untouched), the process umask, an invocation (file arguments, directory, dir/...) x (plain, --smart, --smart -mvgo, -t, -n) and whether one file-system operation fails (ENOSPC with a short write, EIO, EACCES, EMFILE, EPERM at a seeded operation). A reference run without faults gives the expected formatted content; then EVERY crash point of the judged run is evaluated (before the first mutating operation, after each one, and inside writes at a seeded split). Non-trivial = the run rewrites at least one file; distinct = distinct (operation-log hash, workload hash) pairs",
+		Rule: "each run draws a module directory with 1-5 files (.xgo/.gop/.go/.gox; unformatted, already formatted or syntactically invalid; modes 0644/0600/0664/0640/0755/0444; optionally in a sub-directory; ~12% symbolic links to sources outside the tree, a relative link next to a same-named file, and in a quarter of the runs neighbours whose names extend a source's name: further sources f.gox/f.gop and bystanders f.go~/f.go.orig that must survive untouched), the process umask, an invocation (file arguments, directory, dir/...) x (plain, --smart, --smart -mvgo, -t, -n) and whether one file-system operation fails (ENOSPC with a short write, EIO, EACCES, EMFILE, EPERM at a seeded operation). The expected formatted content of each file comes from a fault-free run of the same command with only that file present; then EVERY crash point of the judged run is evaluated (before the first mutating operation, after each one, and inside writes at a seeded split). In 60% of the runs with plain or --smart flags the process is then really killed at a seeded operation, in 70% of those one source takes over the content of a same-kind source next to it, and the command is run again: every file must hold what it had before the second run or its own formatted content. Non-trivial = the run rewrites at least one file; distinct = distinct (operation-log hash, workload hash) pairs",
 		Real: []string{"cmd/internal/gopfmt/fmt.go (flag parsing, walker, gopfmt, writeFileWithBackup, report) compiled from the working tree", "the real formatter, parser and module loader", "a real directory on tmpfs: every operation is forwarded to the kernel"},
 		Stubbed: []string{"package os as seen by fmt.go (simos: op log, crash-point hooks, error injection, os.Exit as a recoverable panic)", "process kill: modelled as 'completed system calls survive, nothing else happens' and evaluated by inspecting the directory at each point instead of killing and restarting"},
 		Assumptions: []string{"process-crash model (SIGKILL), not power loss: no fsync/ordering semantics are assumed", "the formatter's output for a file is what an undisturbed run of the same command produces", "rename(2) over an existing file is atomic"},
